@@ -5,6 +5,7 @@ import (
 	"fmt"
 	"math"
 	"net/url"
+	"reflect"
 	"strconv"
 	"strings"
 
@@ -995,6 +996,102 @@ func c16inheritProbes(c *core.Ctx) {
 	}
 }
 
+// what a false condition hides is not written by an edit - an entry of a list as little as a container - and an
+// edit that is not carried out changes nothing else either
+func c16hiddenEdits(c *core.Ctx) {
+	y := `module he { namespace "urn:he"; prefix he; revision 2020-01-01;
+  list l { when "v>10"; key k; leaf k { type string; } leaf v { type int32; } leaf o { type string; } container in { leaf q { type string; } } }
+  leaf sw { type boolean; } choice ch { case a { leaf x { when "sw='true'"; type string; } } case b { leaf y { type string; } } }
+  container c { when "z>10"; leaf z { type int32; } leaf q { type string; } }
+  container box { list bl { when "../lim>n"; key k; leaf k { type string; } leaf n { type int32; } leaf o { type string; } } leaf lim { type int32; } } }`
+	y = strings.Replace(y, `when "../lim>n"; `, ``, 1)
+	m, err := parser.LoadModuleFromString(nil, y)
+	if err != nil {
+		c.Violation(core.Replay{Kind: "harness", Summary: "c16hiddenEdits module: " + err.Error(), NoInputFound: true})
+		return
+	}
+	before := `{"l":[{"k":"a","v":11,"o":"x"},{"k":"b","v":1,"o":"y","in":{"q":"Q"}}],"sw":false,"y":"Y","c":{"z":5,"q":"Q"}}`
+	for _, tc := range []struct{ op, at, doc, want string }{
+		{"upsert", "", `{"l":[{"k":"b","o":"changed"}]}`, before},
+		{"upsert", "", `{"l":[{"k":"b","in":{"q":"changed"}}]}`, before},
+		{"update", "", `{"l":[{"k":"b","o":"changed"}]}`, before},
+		{"upsert", "", `{"l":[{"k":"a","o":"changed"}]}`, `{"l":[{"k":"a","v":11,"o":"changed"},{"k":"b","v":1,"o":"y","in":{"q":"Q"}}],"sw":false,"y":"Y","c":{"z":5,"q":"Q"}}`},
+		{"upsert", "", `{"l":[{"k":"n","v":12,"o":"new"}]}`, `{"l":[{"k":"a","v":11,"o":"x"},{"k":"b","v":1,"o":"y","in":{"q":"Q"}},{"k":"n","v":12,"o":"new"}],"sw":false,"y":"Y","c":{"z":5,"q":"Q"}}`},
+		{"upsert", "", `{"c":{"q":"changed"}}`, before},
+		{"upsert", "", `{"x":"X"}`, before},
+		{"update", "", `{"x":"X"}`, before},
+	} {
+		var after, status string
+		e := safeDo(func() error {
+			var data map[string]interface{}
+			d := json.NewDecoder(strings.NewReader(before))
+			d.UseNumber()
+			if err := d.Decode(&data); err != nil {
+				return err
+			}
+			store := c16plain(data).(map[string]interface{})
+			b := node.NewBrowser(m, nodeutil.ReflectChild(store))
+			src, err := nodeutil.ReadJSON(tc.doc)
+			if err != nil {
+				return err
+			}
+			sel := b.Root()
+			if tc.op == "upsert" {
+				err = sel.UpsertFrom(src)
+			} else {
+				err = sel.UpdateFrom(src)
+			}
+			status = "ok"
+			if err != nil {
+				status = "error " + short(err.Error())
+			}
+			// the store itself, not a read: the conditions would hide what was written
+			js, err := json.Marshal(store)
+			after = string(js)
+			return err
+		})
+		if e != nil {
+			after = "error " + short(e.Error())
+		}
+		c.Evaluations++
+		c.Count("hidden_edit", tc.op)
+		c.Distinct("hiddenedit " + tc.op + tc.doc)
+		if !c16sameJSON(after, tc.want) {
+			c.Violation(core.Replay{Kind: "property-failure", Class: "hidden-edit", Summary: fmt.Sprintf("%s of %s (%s) leaves the store as %s, want %s", tc.op, tc.doc, status, short(after), tc.want),
+				Input: map[string]interface{}{"yang": y, "before": before, "op": tc.op, "doc": tc.doc}, Impl: after, Spec: tc.want})
+		}
+	}
+}
+
+// JSON numbers as the Go values a store would hold
+func c16plain(v interface{}) interface{} {
+	switch x := v.(type) {
+	case map[string]interface{}:
+		for k, e := range x {
+			x[k] = c16plain(e)
+		}
+		return x
+	case []interface{}:
+		var rows []map[string]interface{}
+		for _, e := range x {
+			rows = append(rows, c16plain(e).(map[string]interface{}))
+		}
+		return rows
+	case json.Number:
+		n, _ := x.Int64()
+		return int(n)
+	}
+	return v
+}
+
+func c16sameJSON(a, b string) bool {
+	var x, y interface{}
+	if json.Unmarshal([]byte(a), &x) != nil || json.Unmarshal([]byte(b), &y) != nil {
+		return false
+	}
+	return reflect.DeepEqual(x, y)
+}
+
 // a conditional leaf addressed directly (Find(leaf) then Get / SetValue) behaves as it does through its container
 func c16leafProbes(c *core.Ctx) {
 	m, err := parser.LoadModuleFromString(nil, `module lw { namespace "urn:lw"; prefix lw; revision 2020-01-01;
@@ -1060,7 +1157,7 @@ func c16leafProbes(c *core.Ctx) {
 }
 
 func C16(c *core.Ctx) {
-	c.Rule = "generated modules placing 'when' on leaves (sibling, nested-path and through-a-list operands), containers and lists (own operands, per entry), on uses (leaf, container with and without a condition of its own, list) and on augments; operands of every integer type incl. 64-bit extremes, decimal64, string, boolean, enumeration; all six operators and plain existence paths; literals that are values of the operand's type and (30 %) literals that are not: beyond the range, beyond 64 bits, with a fraction against an integer, whole against a decimal64, names the enumeration does not have; data with the operand unset, at and one step around the literal, at the type's extremes; (i) read (WriteJSON) from the JSON reader and from reflection over typed maps compared with the Lean model, (ii) ?where= on lists and ?filter= on a notification stream compared with the model's filter, (iii) upsert of a conditional leaf / of a leaf inside a conditional container into a reflection store: written iff the model says the conditions hold, nothing else changed; directed: keyed Find of entries hidden by their list's condition; comparisons with a union operand; conditions reaching a node through nested uses, through a choice or a case (stated there, or on the uses / augment that brings them in). non-trivial = read where ≥1 condition is false and ≥1 true; distinct by (module, tree, source)"
+	c.Rule = "generated modules placing 'when' on leaves (sibling, nested-path and through-a-list operands), containers and lists (own operands, per entry), on uses (leaf, container with and without a condition of its own, list) and on augments; operands of every integer type incl. 64-bit extremes, decimal64, string, boolean, enumeration; all six operators and plain existence paths; literals that are values of the operand's type and (30 %) literals that are not: beyond the range, beyond 64 bits, with a fraction against an integer, whole against a decimal64, names the enumeration does not have; data with the operand unset, at and one step around the literal, at the type's extremes; (i) read (WriteJSON) from the JSON reader and from reflection over typed maps compared with the Lean model, (ii) ?where= on lists and ?filter= on a notification stream compared with the model's filter, (iii) upsert of a conditional leaf / of a leaf inside a conditional container into a reflection store: written iff the model says the conditions hold, nothing else changed; directed: keyed Find of entries hidden by their list's condition; edits of what a false condition hides (a list entry, a container, a leaf in a case) leave the store as it was (c16hiddenEdits); comparisons with a union operand; conditions reaching a node through nested uses, through a choice or a case (stated there, or on the uses / augment that brings them in). non-trivial = read where ≥1 condition is false and ≥1 true; distinct by (module, tree, source)"
 	c.Assumptions = append(c.Assumptions,
 		"operands of a condition and the nodes on the way to them carry no condition themselves (the model does not chain conditions of operands)",
 		"a leaf's own condition is evaluated in the container that holds the leaf, a container's / list entry's own condition in itself (the library's convention, pinned by its tests), a condition from uses/augment in the parent (RFC 7950 §7.21.5)",
@@ -1071,6 +1168,7 @@ func C16(c *core.Ctx) {
 	}
 	c16probes(c)
 	c16leafProbes(c)
+	c16hiddenEdits(c)
 	c16unionProbes(c)
 	c16inheritProbes(c)
 	rng := core.NewRng(c.Seed)
